@@ -36,7 +36,7 @@ EXHAUSTIVE_NOTE = 'product status x colour x held x relative pose x action (3x3 
 REQUIRED = {'quick': {'fn.actuate_door': 3000, 'fn.actuate_box': 3000, 'product.cases': 2000, 'event.locked_opened': 20,
                       'event.locked_refused': 50, 'event.closed_opened': 50, 'event.box_opened': 50,
                       'graph.transitions': 2000, 'history.steps': 500, 'flags.door': 3, 'product.with_obstacles': 100, 'stateful.steps': 400,
-                      'constructed.worlds': 80, 'constructed.steps': 500}}
+                      'constructed.worlds': 80, 'branching.cases': 150, 'constructed.steps': 500}}
 ASPECTS = ('door', 'box', 'key')
 
 
@@ -123,6 +123,53 @@ def stateful_path(ctx, n):
                               f'predict (cell in front now {enc.eo(env.state.grid[fy, fx]) if gen.in_grid(env.state, fy, fx) else None})',
                               'stateful_case', {'k': [ctx.seed, ctx.shard, k]})
                 break
+
+
+def branching(ctx, n):
+    """two futures of one state: the first is explored through the functional interface and its states are then updated in
+    place with the registry's own transition functions (they belong to the caller); afterwards the same first step is asked
+    of the original state again - the door or box found there is the one the original state had, not one the other future
+    opened"""
+    from .. import refmodel
+    names = ['move_agent', 'turn_agent', 'actuate_door', 'actuate_box', 'pickndrop']
+    chain = [{'name': n_} for n_ in names]
+    for k in range(n):
+        rng = gen.rng_for('C10branch', ctx.seed, ctx.shard, k)
+        h, w = rng.randint(2, 4), rng.randint(2, 4)
+        c = rng.choice(list(Color))
+        state = dyndrive.floor_state(h, w, h - 1, rng.randrange(w), gen.ORIENTATIONS[0], Key(c) if rng.random() < 0.6 else NoneGridObject())
+        fy, fx = gen.front_of(state)
+        subject = rng.choice([Box(Door(Door.Status.CLOSED, c)), Box(Door(Door.Status.LOCKED, c)), Box(Box(Door(Door.Status.CLOSED, c))),
+                              Box(Box(Key(c))), Door(Door.Status.CLOSED, c), Box(Key(c))])
+        state.grid[fy, fx] = subject
+        env = compose.assemble((h, w), [Floor, Wall, Door, Key, Box, Exit], list(Color), list(Action),
+                               compose.build('transition', {'name': 'chain', 'transition_functions': chain}),
+                               compose.build('reward', {'name': 'living_reward'}), compose.build('terminating', {'name': 'reach_exit'}),
+                               compose.build('observation', {'name': 'fully_transparent', 'area': [[-1, 0], [-1, 1]]}),
+                               gen.Area((-1, 0), (-1, 1)), lambda rng=None, s=state: s)
+        expected_first = refmodel.ref_chain(state, names, Action.ACTUATE)
+        original = enc.es(state)
+        cur = state
+        for t in range(rng.randint(1, 3)):  # first future: functional steps ...
+            ok, res = call_real(env.functional_step, cur, Action.ACTUATE)
+            if not ok:
+                break
+            cur = res[0]
+            for _ in range(2):        # ... whose states the caller then keeps updating in place
+                for name in ('actuate_box', 'actuate_door'):
+                    call_real(dyndrive.REG[name], cur, Action.ACTUATE, rng=None)
+        ctx.ev()
+        ctx.hit('branching.cases')
+        if enc.es(state) != original:
+            ctx.violation('door', 'branching.original_state_changed',
+                          f'facing {enc.eo(subject)}: after a future of the state was explored and updated in place, the original state '
+                          f'itself shows {enc.eo(state.grid[fy, fx])} in front', 'branching_case', {'k': [ctx.seed, ctx.shard, k]})
+            continue
+        ok, res = call_real(env.functional_step, state, Action.ACTUATE)
+        if ok and enc.es(res[0]) != expected_first:
+            ctx.violation('door', 'branching.second_future_differs',
+                          f'facing {enc.eo(subject)}: the first ACTUATE, asked again after another future of the state was explored, '
+                          f'reveals {enc.eo(res[0].grid[fy, fx])}', 'branching_case', {'k': [ctx.seed, ctx.shard, k]})
 
 
 def constructed_worlds(ctx, n):
@@ -381,6 +428,7 @@ def run(ctx):
         ctx.sample('sweep_state', {'state': enc.render(state), 'category': cat})
         stateful_path(ctx, ctx.pick(150, 2500))
         constructed_worlds(ctx, ctx.pick(120, 2000))
+        branching(ctx, ctx.pick(200, 3000))
         keydoor_graphs(ctx, sink)
         histories(ctx, sink, ctx.pick(2, 30), ctx.pick(150, 600))
 
@@ -395,6 +443,9 @@ def replay(ctx, kind, payload):
     elif kind == 'stateful_case':
         ctx.seed, ctx.shard = payload['k'][0], payload['k'][1]
         stateful_path(ctx, payload['k'][2] + 1)
+    elif kind == 'branching_case':
+        ctx.seed, ctx.shard = payload['k'][0], payload['k'][1]
+        branching(ctx, payload['k'][2] + 1)
     elif kind == 'constructed_case':
         ctx.seed, ctx.shard = payload['k'][0], payload['k'][1]
         constructed_worlds(ctx, payload['k'][2] + 1)
